@@ -203,19 +203,18 @@ STREAM_CASES = []
 RETURN_BOUNDARIES = (0, 1, (1 << 31) - 1, 1 << 31, (1 << 32) - 1, 1 << 32, (1 << 63) - 1, 1 << 63, (1 << 64) - 1)
 
 # window sizes for the scale ladder: a call that blocks for a long time returns after thousands of records of its thread
-SCALE_QUICK = (4094, 4095, 4096, 5000, 9000)
-SCALE_THOROUGH = (4095, 4096, 16384, 20000, 65535, 65536, 70000, 140000)
+SCALE_QUICK = H.SCALE_RUNGS_QUICK
+SCALE_THOROUGH = H.SCALE_RUNGS_THOROUGH
 
 
 def scale_windows(res, ctx, rng, names):
     """The result part comes from the END record however many records of the same thread lie between START and END."""
-    base = H.unrelated(rng, 97)
-    for n in ctx.pick(SCALE_QUICK, SCALE_THOROUGH):
+    for n in [n for i, n in enumerate(ctx.pick(SCALE_QUICK, SCALE_THOROUGH)) if ctx.mine(i)]:
         name = rng.choice(names)
         start = domain.gen_words(rng, name, 'S')
         ret = domain.gen_words(rng, name, 'E')[1:]
-        junk = (base * (n // len(base) + 1))[:n]
-        case = {'name': name, 'start': start, 'nested_records': n}
+        junk = H.window_filler(rng, n - 2)          # the window holds n records, START and END included
+        case = {'name': name, 'start': start, 'nested_records': n - 2}
         for end in ([0] + ret, [rng.randrange(1, 107)] + ret):
             try:
                 small, big = render_outer(name, start, end), render_outer(name, start, end, junk)
@@ -239,10 +238,9 @@ def run(ctx):
             for rep in range(ctx.pick(1, 40)):
                 check_decoder(res, ctx, rng, name)
     mine = [n for i, n in enumerate(inv['bsd']) if ctx.mine(i) and n not in DECLARED_EXCLUSIONS]
-    if mine and (ctx.thorough or ctx.shard < 3):
+    if mine:
         scale_windows(res, ctx, rng, mine)
-    stream.run_stream(res, 'c10', STREAM_CASES, rng, 'result renderings')
-    stream.run_files(res, 'c10', STREAM_CASES, rng, 'result renderings')
+    stream.run_all(res, 'c10', STREAM_CASES, rng, 'result renderings', ctx)
     if ctx.shard == 0:
         res.sample({'decoder': 'BSC_read', 'success': render_outer('BSC_read', (3, 0x1000, 64, 0), (0, 64, 0, 0)),
                     'error': render_outer('BSC_read', (3, 0x1000, 64, 0), (35, 64, 0, 0)),
